@@ -2,6 +2,15 @@
 From stdpp Require Import gmap.
 From V.C03 Require Import Model.
 
+Section proofs.
+Context {K : Type} `{!EqDecision K, !Countable K}.
+Notation hash := K (only parsing).
+Notation store0 := (@Store K _ _ ∅ ∅).
+Implicit Types (d : gmap K (list K)) (c : gmap K (@dnode K)) (s : @store K _ _)
+               (h x y r child parent : K) (seq a b cs : list K) (n : @dnode K)
+               (t : @tree K) (kids : list (@tree K)) (o : @op K) (ops : list (@op K))
+               (bs : list (list K)).
+
 (* ---------- unfolding the predicates ---------- *)
 Lemma closed_spec d :
   closed d ↔ ∀ h cs x, d !! h = Some cs → x ∈ cs → is_Some (d !! x).
@@ -188,10 +197,10 @@ Proof.
 Qed.
 
 Section walk.
-  Context (c : gmap N dnode).
+  Context (c : gmap K (@dnode K)).
 
   (* every reference of a dirty node is present in d or is a tracked dirty child *)
-  Definition avail (d : gmap N (list N)) : Prop :=
+  Definition avail (d : gmap K (list K)) : Prop :=
     ∀ h n x, c !! h = Some n → x ∈ refs n → is_Some (d !! x) ∨ (x ∈ tracked n ∧ is_Some (c !! x)).
 
   Lemma avail_put_all d seq : avail d → avail (put_all c d seq).
@@ -305,10 +314,10 @@ Lemma commit_terminates c r : acyclic c → is_Some (commit_seq (S (size c)) c r
 Proof.
   intros (rank & Hrank).
   set (below h := filter (λ x, rank x < rank h) (dom c) : gset hash).
-  assert (∀ n h, size (below h) < n → is_Some (commit_seq n c h)) as H.
-  { induction n as [|n IH]; intros h Hn; [lia|]. simpl.
+  assert (∀ (fu : nat) h, size (below h) < fu → is_Some (commit_seq fu c h)) as H.
+  { induction fu as [|fu IH]; intros h Hn; [lia|]. simpl.
     destruct (c !! h) as [cs|] eqn:E; [|done].
-    destruct (commit_list_is_Some (commit_seq n c) (tracked cs)) as [sub Hs]; [|by rewrite Hs].
+    destruct (commit_list_is_Some (commit_seq fu c) (tracked cs)) as [sub Hs]; [|by rewrite Hs].
     apply Forall_forall. intros x Hx. destruct (c !! x) as [csx|] eqn:Ex.
     2:{ rewrite commit_seq_uncached; done. }
     assert (rank x < rank h) as Hlt by (eapply Hrank; eauto).
@@ -492,7 +501,7 @@ Proof.
   - apply consistent_spec. simpl. intros h a n _ Hn. by rewrite lookup_empty in Hn.
 Qed.
 
-Lemma inv_empty : inv (Store ∅ ∅).
+Lemma inv_empty : inv store0.
 Proof.
   split; [|split].
   - apply closed_spec. simpl. intros h cs x H. by rewrite lookup_empty in H.
@@ -516,9 +525,9 @@ Proof.
   simpl. apply IH; [|done]. by apply step_inv.
 Qed.
 
-Lemma hist_ok_app s a b : hist_ok s (a ++ b) ↔ hist_ok s a ∧ hist_ok (foldl step s a) b.
+Lemma hist_ok_app s ops ops' : hist_ok s (ops ++ ops') ↔ hist_ok s ops ∧ hist_ok (foldl step s ops) ops'.
 Proof.
-  revert s. induction a as [|o a IH]; intros s; simpl; [tauto|]. rewrite IH. tauto.
+  revert s. induction ops as [|o ops IH]; intros s; simpl; [tauto|]. rewrite IH. tauto.
 Qed.
 
 (* the disk only grows, and never changes a stored blob, along any history *)
@@ -543,8 +552,8 @@ Qed.
    hence every root whose top node is present is resolvable, and every root resolvable before the
    commit is still resolvable with the same nodes. *)
 Lemma history_crash_safe ops1 r seq k :
-  let s := foldl step (Store ∅ ∅) ops1 in
-  hist_ok (Store ∅ ∅) ops1 → run (cache s) r seq →
+  let s := foldl step store0 ops1 in
+  hist_ok store0 ops1 → run (cache s) r seq →
   closed (crash s seq k)
   ∧ (∀ r', is_Some (crash s seq k !! r') → resolvable (crash s seq k) r')
   ∧ (∀ r', resolvable (disk s) r' →
@@ -561,9 +570,9 @@ Qed.
    resolvable, with the same nodes holding the same blobs, after any continuation of the history -
    further commits, failed writes, crashes and restarts included. *)
 Lemma durable_forever ops1 ops2 r :
-  let s1 := foldl step (Store ∅ ∅) ops1 in
-  let s2 := foldl step (Store ∅ ∅) (ops1 ++ ops2) in
-  hist_ok (Store ∅ ∅) (ops1 ++ ops2) → resolvable (disk s1) r →
+  let s1 := foldl step store0 ops1 in
+  let s2 := foldl step store0 (ops1 ++ ops2) in
+  hist_ok store0 (ops1 ++ ops2) → resolvable (disk s1) r →
   resolvable (disk s2) r
   ∧ (∀ h, reach (disk s1) r h → disk s2 !! h = disk s1 !! h)
   ∧ (∀ h, reach (disk s2) r h ↔ reach (disk s1) r h).
@@ -577,23 +586,23 @@ Qed.
    afterwards, r is on disk and resolvable from the disk alone, and every node the pre-commit view
    (dirty cache over disk) reached from r is on disk with the same blob. *)
 Lemma committed_root_survives ops1 r seq ops2 :
-  let s := foldl step (Store ∅ ∅) ops1 in
-  let s2 := foldl step (Store ∅ ∅) (ops1 ++ OCommit r seq :: ops2) in
-  hist_ok (Store ∅ ∅) (ops1 ++ OCommit r seq :: ops2) → is_Some (view s !! r) →
+  let s := foldl step store0 ops1 in
+  let s2 := foldl step store0 (ops1 ++ OCommit r seq :: ops2) in
+  hist_ok store0 (ops1 ++ OCommit r seq :: ops2) → is_Some (view s !! r) →
   is_Some (disk s2 !! r) ∧ closed (disk s2) ∧ resolvable (disk s2) r
   ∧ (∀ h, reach (view s) r h → disk s2 !! h = view s !! h).
 Proof.
   intros s s2 Hok Hv.
-  assert (hist_ok (Store ∅ ∅) ((ops1 ++ [OCommit r seq]) ++ ops2)) as Hok' by (by rewrite <- app_assoc).
+  assert (hist_ok store0 ((ops1 ++ [OCommit r seq]) ++ ops2)) as Hok' by (by rewrite <- app_assoc).
   pose proof Hok' as Hok''. apply hist_ok_app in Hok'' as [Hok1 _].
   apply hist_ok_app in Hok1 as [Hok0 [Hrun _]]. fold s in Hrun. simpl in Hrun.
   destruct (hist_inv _ _ inv_empty Hok0) as (Hd & Hcc & Hc). fold s in Hd, Hcc, Hc.
   destruct (commit_complete s r seq Hc Hcc Hd Hrun Hv) as (Hr & Hcl & Hres & Hsame).
-  assert (disk (foldl step (Store ∅ ∅) (ops1 ++ [OCommit r seq])) = crash s seq (length seq)) as Hd1.
+  assert (disk (foldl step store0 (ops1 ++ [OCommit r seq])) = crash s seq (length seq)) as Hd1.
   { rewrite foldl_app. fold s. simpl. unfold crash. by rewrite firstn_all. }
   destruct (durable_forever (ops1 ++ [OCommit r seq]) ops2 r Hok') as (Hres2 & Hsame2 & _).
   { by rewrite Hd1. }
-  assert (foldl step (Store ∅ ∅) ((ops1 ++ [OCommit r seq]) ++ ops2) = s2) as Es2
+  assert (foldl step store0 ((ops1 ++ [OCommit r seq]) ++ ops2) = s2) as Es2
     by (unfold s2; by rewrite <- app_assoc).
   rewrite Es2, Hd1 in *.
   destruct (hist_inv _ _ inv_empty Hok) as (Hd2 & _). fold s2 in Hd2.
@@ -610,3 +619,4 @@ Proof.
     rewrite Hrc in Hva. injection Hva as ->.
     econstructor; [done..|]. apply IH. rewrite closed_spec in Hcl. eauto.
 Qed.
+End proofs.
